@@ -191,7 +191,8 @@ fn deplace_column(c: ColId, from: &Path, to: &Path, copy: bool) -> Result<()> {
 		let entry = try_io!(entry);
 		if let Some(file) = entry.path().file_name().and_then(|f| f.to_str()) {
 			if crate::index::TableId::is_file_name(c, file) ||
-				crate::table::TableId::is_file_name(c, file)
+				crate::table::TableId::is_file_name(c, file) ||
+				crate::ref_count::RefCountTableId::is_file_name(c, file)
 			{
 				let mut from = from.to_path_buf();
 				from.push(file);
